@@ -13,7 +13,7 @@ RULE = ("identifications over the Annex 10 six-bit alphabet (A-Z=1..26, space=32
         "with the other 7 random legal (exhaustive 8x37) plus Hypothesis-drawn strings; TC 1-4 x category 0-7 x DF17/18 (callsign, category) and "
         "BDS 2,0 in DF20/21 with random header/address (cs20); oracle: output == input with ' ' -> '_', category == field; independence: "
         "changing one character changes exactly that output position. non-trivial = string with >= 4 distinct symbols or a space/digit"
-        ' Also: the keyword form callsign(msg=...), 98 real identification frames (leg corpus), four concurrent callers decoding different identifications (leg threads), 300 000 / 2.4 million distinct frames in a row in one process (leg volume).')
+        ' Also: the keyword form callsign(msg=...), 98 real identification frames (leg corpus), four concurrent callers decoding different identifications (leg threads), 300 000 / 2.4 million distinct frames in a row in one process (leg volume), the first calls of a freshly imported package made by four threads at once (leg first_use).')
 ASSUMPTIONS = ["character codes per Annex 10 Vol IV table 3-9 (ref table below, written from the standard)"]
 
 ALPHA = "ABCDEFGHIJKLMNOPQRSTUVWXYZ 0123456789"
@@ -164,7 +164,22 @@ def vol_step(a, b, k):
     return None
 
 
+# ---------------------------------------------------------------- first calls of a freshly imported package, four threads at once
+def first_jobs(rng):
+    jobs = []
+    for _ in range(30):
+        cs = "".join(rng.choice(ALPHA) for _ in range(8))
+        tc, cat = rng.randint(1, 4), rng.getrandbits(3)
+        m = frames.tohex(frames.df17(rng.getrandbits(24), (tc << 51) | (cat << 48) | pack(cs), ca=rng.getrandbits(3), df=rng.choice([17, 18])), 112, rng.choice("UL"))
+        jobs.append(("adsb.callsign", (m,), ("ok", cs.replace(" ", "_"))))
+        jobs.append(("adsb.category", (m,), ("ok", cat)))
+        m2 = frames.tohex(frames.commb(rng.choice([20, 21]), rng.getrandbits(24), (0x20 << 48) | pack(cs), rng.getrandbits(27)), 112, "U")
+        jobs.append(("commb.cs20", (m2,), ("ok", cs.replace(" ", "_"))))
+    return jobs
+
+
 LEGS = [
+    variants.first_use_leg(first_jobs),
     volume.leg(vol_step, 300000, 2400000, "300 000 (thorough: 2.4 million per process) distinct identification frames through callsign() in one process"),
     Leg("threads", chk_threads, enum=enum_threads, shards_quick=4, shards_thorough=8, doc="concurrent callers with a 1 us switch interval (detection is probabilistic, the verdict on a stateless decoder is not)"),
     Leg("corpus", chk_corpus, enum=enum_corpus, exhaustive=True, doc="98 real identification frames: decoded callsign re-encodes to the transmitted bits"),
